@@ -83,16 +83,6 @@ func (g *hGrammar) String() string {
 
 type hNode string
 
-func (n hNode) SourceRange() (r struct {
-	Filename  string
-	Offset    int
-	EndOffset int
-	Line      int
-	Column    int
-}) {
-	return
-}
-
 // plain RHS (markers stripped)
 func hRHS(r Rule) []Sym {
 	var out []Sym
@@ -197,8 +187,10 @@ func hRandGrammar(r *vRand, maxNT, maxT, maxRules, maxLen int, opts hGenOpts) *h
 		if opts.multiInput && g.nn > 1 && r.Intn(3) == 0 {
 			g.inputs = append(g.inputs, Input{Nonterminal: Sym(g.nt + 1 + r.Intn(g.nn-1)), Eoi: r.Intn(2) == 0 || !opts.noEoi})
 		}
-		if opts.multiInput && r.Intn(8) == 0 {
-			g.inputs = append(g.inputs, Input{Nonterminal: Sym(g.nt), Eoi: r.Intn(2) == 0 || !opts.noEoi})
+		if opts.multiInput && opts.noEoi && r.Intn(6) == 0 {
+			// the same nonterminal as a second entry point with the other eoi mode
+			// (exact duplicates of an input are degenerate and not generated)
+			g.inputs = append(g.inputs, Input{Nonterminal: Sym(g.nt), Eoi: !g.inputs[0].Eoi})
 		}
 		if opts.prec {
 			used := map[Sym]bool{}
@@ -220,6 +212,58 @@ func hRandGrammar(r *vRand, maxNT, maxT, maxRules, maxLen int, opts hGenOpts) *h
 			return g
 		}
 	}
+}
+
+// withFreshStart adds a start nonterminal that occurs on no right-hand side (the textbook setting
+// in which "canonical LALR(1)" is defined) and makes it the only input.
+func (g *hGrammar) withFreshStart(eoi bool) *hGrammar {
+	n := &hGrammar{nt: g.nt, nn: g.nn + 1, prec: g.prec, marks: g.marks}
+	n.rules = append([]Rule(nil), g.rules...)
+	s := Sym(g.nt + g.nn)
+	n.rules = append(n.rules, Rule{LHS: s, RHS: []Sym{g.inputs[0].Nonterminal}})
+	n.inputs = []Input{{Nonterminal: s, Eoi: eoi}}
+	return n
+}
+
+// hExprGrammar draws an operator grammar: E -> E op E [%prec t] | atom, with random precedence
+// groups (left/right/nonassoc) over the operators and possibly an extra pseudo-token.
+func hExprGrammar(r *vRand) *hGrammar {
+	nops := 1 + r.Intn(3)
+	g := &hGrammar{nt: 1 + nops + 2, nn: 2} // ops 1..nops, atom, pseudo-token
+	atom := Sym(nops + 1)
+	pseudo := Sym(nops + 2)
+	S, E := Sym(g.nt), Sym(g.nt+1)
+	g.rules = append(g.rules, Rule{LHS: S, RHS: []Sym{E}})
+	for k := 0; k < 1+r.Intn(nops+2); k++ {
+		op := Sym(1 + r.Intn(nops))
+		rule := Rule{LHS: E, RHS: []Sym{E, op, E}}
+		switch r.Intn(4) {
+		case 0:
+			rule.Precedence = pseudo
+		case 1:
+			rule.Precedence = Sym(1 + r.Intn(nops))
+		}
+		g.rules = append(g.rules, rule)
+	}
+	if r.Intn(3) == 0 {
+		g.rules = append(g.rules, Rule{LHS: E, RHS: []Sym{Sym(1 + r.Intn(nops)), E}})
+	}
+	g.rules = append(g.rules, Rule{LHS: E, RHS: []Sym{atom}})
+	g.inputs = []Input{{Nonterminal: S, Eoi: true}}
+	used := map[Sym]bool{}
+	for k := 0; k < 1+r.Intn(3); k++ {
+		p := Precedence{Associativity: Associativity(r.Intn(3))}
+		for _, t := range []Sym{1, 2, 3, pseudo} {
+			if int(t) < g.nt && t != atom && !used[t] && r.Intn(2) == 0 {
+				used[t] = true
+				p.Terminals = append(p.Terminals, t)
+			}
+		}
+		if len(p.Terminals) > 0 {
+			g.prec = append(g.prec, p)
+		}
+	}
+	return g
 }
 
 type hGenOpts struct {
@@ -355,6 +399,8 @@ type hTrace struct {
 	errAt  int      // token index of the reported error (-1 if accepted)
 	events []string // shifts and reductions
 	bad    string   // table inconsistency detected while running
+	// EOI was shifted into the final state of a different input (the parse then fails there)
+	otherFinal bool
 }
 
 type hRunOpts struct {
@@ -494,6 +540,12 @@ func (t *Tables) hRun(g *Grammar, in int, w []Sym, o hRunOpts) (tr hTrace) {
 				tr.events = append(tr.events, fmt.Sprintf("s%d", next(0)))
 				if next(0) != 0 {
 					pos++
+				} else if state != end {
+					for _, f := range t.FinalStates {
+						if f == state {
+							tr.otherFinal = true
+						}
+					}
 				}
 			}
 		}
@@ -722,7 +774,20 @@ func buildRef(g *hGrammar) *refLALR {
 		}
 	}
 	// merge by core (start states are never merged)
-	isKernel := func(it lr1Item) bool { return it.dot > 0 }
+	// The implementation has no augmented productions: the state reached on the input nonterminal
+	// is the ordinary LR(0) state of that core (shared with every other context that has the same
+	// core), or a fresh empty state when no rule has the dot after that nonterminal. The reference
+	// therefore merges by the core of real rules only.
+	hasReal := func(items map[lr1Item]bool) bool {
+		for it := range items {
+			if it.dot > 0 && it.rule < len(g.rules) {
+				return true
+			}
+		}
+		return false
+	}
+	isKernel := func(it lr1Item) bool { return it.dot > 0 && it.rule < len(g.rules) }
+	isAugKernel := func(it lr1Item) bool { return it.dot > 0 }
 	merged := map[string]int{}
 	remap := make([]int, len(cs))
 	for i, s := range cs {
@@ -733,6 +798,9 @@ func buildRef(g *hGrammar) *refLALR {
 			continue
 		}
 		k := coreKey(s.items, isKernel)
+		if !hasReal(s.items) {
+			k = "aug" + coreKey(s.items, isAugKernel)
+		}
 		m, ok := merged[k]
 		if !ok {
 			m = len(r.states)
